@@ -226,6 +226,20 @@ Definition bind_outputs (strict : bool) (ds : list decl) (r : retval) : option (
     end
   end.
 
+(* ------------------------------------------------------------------ part 4b: outcome of a shell body *)
+
+(* How the outcome of a shell task's body is derived from what the command did:
+     pydra/environments/native.py  Native.execute:  `if output["return_code"]: raise RuntimeError(...)`
+       — Python truthiness of an int: *any* non-zero code fails, a negative one (death by signal, as
+       subprocess reports it) included;
+     pydra/compose/shell/task.py   ShellOutputs._from_job: a declared output file that does not exist
+       raises ValueError unless the field's type is optional.
+   rc: the return code; files: for every declared output file (not optional?, exists?); v: the outputs. *)
+Definition files_present (files : list (bool * bool)) : bool :=
+  forallb (fun f => negb (fst f) || snd f) files.
+Definition shell_outcome (rc : Z) (files : list (bool * bool)) (v : value) : res :=
+  if Z.eqb rc 0 then (if files_present files then Ok v else Err) else Err.
+
 (* ------------------------------------------------------------------ part 5: in-place mutation of inputs *)
 
 (* Input values as trees; the body may replace any sub-value in place. *)
